@@ -77,14 +77,6 @@ class Item:
         """Creates a new item that is shifted one position"""
         return Item(self.production, self.dotpos + 1, self.look_ahead)
 
-    @property
-    def NextNext(self):
-        """Gets the symbol after the next symbol, or EPS if at the end"""
-        if self.dotpos + 1 >= len(self.production.symbols):
-            return EPS
-        else:
-            return self.production.symbols[self.dotpos + 1]
-
     def __repr__(self):
         prod = self.production
         predot = " ".join(prod.symbols[0 : self.dotpos])
@@ -179,7 +171,8 @@ def calculate_first_sets(grammar):
     Calculate first sets for each grammar symbol
     This is a dictionary which maps each grammar symbol
     to a set of terminals that can be encountered first
-    when looking for the symbol.
+    when looking for the symbol. The set contains EPS when the
+    symbol can be empty.
     """
     first = {}
     nullable = {}
@@ -198,14 +191,15 @@ def calculate_first_sets(grammar):
             if all(nullable[beta] for beta in rule.symbols):
                 if not nullable[rule.name]:
                     nullable[rule.name] = True
+                    first[rule.name].add(EPS)
                     some_change = True
 
-            # Update first sets:
+            # Update first sets, look beyond symbols which can be empty:
             for beta in rule.symbols:
+                if first[beta] - {EPS} - first[rule.name]:
+                    first[rule.name] |= first[beta] - {EPS}
+                    some_change = True
                 if not nullable[beta]:
-                    if first[beta] - first[rule.name]:
-                        first[rule.name] |= first[beta]
-                        some_change = True
                     break
         if not some_change:
             break
@@ -247,11 +241,16 @@ class LrParserBuilder:
                 worklist.append(itm)
 
         def first2(itm):
-            # When using the first sets, create a copy:
-            f = set(self.first[itm.NextNext])
-            if EPS in f:
-                f.discard(EPS)
+            # The terminals that can come after the next symbol:
+            f = set()
+            for symbol in itm.production.symbols[itm.dotpos + 1 :]:
+                f |= self.first[symbol]
+                if EPS not in self.first[symbol]:
+                    break
+            else:
+                # All symbols after the next symbol can be empty:
                 f.add(itm.look_ahead)
+            f.discard(EPS)
             return f
 
         # Start of algorithm:
